@@ -68,6 +68,12 @@ class ProcessLine(spawn_context.Process):
         self._send.send((ex, tb, hasattr(self._line[0],'_poisoned') and self._line[0]._poisoned))
 
     def join(self) -> None:
+        #a result that doesn't fit into the pipe's buffer (an exception with a long message)
+        #keeps the child blocked in send until it is read so we read before we wait for its exit
+        while self.is_alive():
+            if self._has_result():
+                self._get_result()
+                break
         super().join()
         self._get_result()
 
@@ -86,6 +92,10 @@ class ProcessLine(spawn_context.Process):
     @property
     def poisoned(self) -> bool:
         return try_else(lambda: self._poisoned, False)
+
+    def _has_result(self):
+        with self._lock:
+            return self._recv.closed or self._recv.poll(.05)
 
     def _get_result(self):
         with self._lock:
